@@ -1722,6 +1722,14 @@ func rulePosFieldMix(c *Ctx) []Obligation {
 					out["col"] = true
 				}
 			}
+		case *ssa.Call:
+			// pure integer arithmetic put into a function of its own (nextTabStop(tcol)): the result belongs to
+			// the families of the arguments
+			if cal := x.Call.StaticCallee(); cal != nil && pureIntArith(c, cal) {
+				for _, a := range x.Call.Args {
+					families(a, seen, out)
+				}
+			}
 		case *ssa.BinOp:
 			families(x.X, seen, out)
 			families(x.Y, seen, out)
@@ -1842,7 +1850,11 @@ func rulePosFieldMix(c *Ctx) []Obligation {
 					}
 					return
 				}
-				// tcol must not leave the lexer's own arithmetic: not an argument of any call
+				// tcol must not leave the lexer's own arithmetic: not an argument of any call — other than a call of
+				// that arithmetic itself
+				if pureIntArith(c, cal) {
+					return
+				}
 				for _, a := range x.Common().Args {
 					got := map[string]bool{}
 					families(a, map[ssa.Value]bool{}, got)
@@ -3686,4 +3698,31 @@ func errFanoutMerge(c *Ctx) []Obligation {
 		obs = append(obs, ok(R, con, c.Pos(merge.Pos()), "only the merged entry's own errors (and those of a child that is not linked) are taken over"))
 	}
 	return obs
+}
+
+// pureIntArith: a repo function from integers to integers whose body calls nothing and stores nothing.
+func pureIntArith(c *Ctx, fn *ssa.Function) bool {
+	if fn == nil || !c.isRepoFn(fn) || fn.Blocks == nil || fn.Signature.Recv() != nil {
+		return false
+	}
+	sig := fn.Signature
+	if sig.Params().Len() == 0 || sig.Results().Len() != 1 {
+		return false
+	}
+	for i := 0; i < sig.Params().Len(); i++ {
+		if !isIntType(sig.Params().At(i).Type()) {
+			return false
+		}
+	}
+	if !isIntType(sig.Results().At(0).Type()) {
+		return false
+	}
+	pure := true
+	eachInstr(fn, func(in ssa.Instruction) {
+		switch in.(type) {
+		case ssa.CallInstruction, *ssa.Store, *ssa.MapUpdate, *ssa.Send:
+			pure = false
+		}
+	})
+	return pure
 }
